@@ -410,10 +410,11 @@ func splitRunToFit(text string, limit int, mode TextReadMode) (head string, head
 	if cut == 0 || cut >= len(buf) {
 		return "", 0, "", 0, false
 	}
+	restWidth = max(total-headWidth, 1)
 	if headWidth < 1 {
 		headWidth = 1
 	}
-	return text[:cut], headWidth, text[cut:], max(total-headWidth, 1), true
+	return text[:cut], headWidth, text[cut:], restWidth, true
 }
 
 // replaceInvalidUTF8 substitutes U+FFFD for every byte that is not part of a
